@@ -248,6 +248,8 @@ def validator_complete(F, rep):
         out = set()
         if f is None: return None
         rep.fn_seen(f)
+        # error-constructor helpers are seen through (the Err is then built under the guards of its call site)
+        f = mir.inlined(F, f, depth=2, ok=lambda F_, caller, cp, g: g is not None and g.kind != "closure" and cp.startswith("crate::version::zerv::schema::validation") and not cp.endswith("validate_components") and not cp.endswith("validate_primary_order") and not mir.has_loop(g))
         for bi, si, st in f.stmts():
             if st[0] == "=" and st[2][0] == "agg" and st[2][1].get("variant") in ("StdinError",):
                 preds = []
@@ -294,8 +296,18 @@ def validator_complete(F, rep):
             if st[0] == "=" and st[2][0] == "agg" and st[2][1].get("variant") == "StdinError":
                 for d, pol, dd in mir.guards_of(po, bi):
                     if d[0] == "bin" and ((d[1] == "Le" and pol is True) or (d[1] == "Gt" and pol is False)): le = True
+        if not le:
+            # `indices.windows(2).any(|pair| pair[1] <= pair[0])` as the rejection condition
+            for bi, si, st in po.stmts():
+                if st[0] == "=" and st[2][0] == "agg" and st[2][1].get("variant") == "StdinError":
+                    for d, pol, dd in mir.guards_of(po, bi):
+                        if d[0] == "call" and (d[1] or "").endswith("Iterator::any") and pol is True:
+                            for c in mir.closures_in(F, po):
+                                cmps = [(st2[2][1], st2[2][2], st2[2][3]) for b2, s2, st2 in c.stmts() if st2[0] == "=" and st2[2][0] == "bin" and st2[2][1] in ("Le", "Ge", "Lt", "Gt")]
+                                if len(cmps) == 1 and cmps[0][0] in ("Le", "Ge"): le = "any"
         if le: rep.ok(rule, "primary order rejected when indices[i] <= indices[i-1]", nontrivial_key="order")
-        else: rep.bad(rule, "primary-order", "validate_primary_order does not reject non-increasing primary components", po.where())
+        elif not any(st[0] == "=" and st[2][0] == "agg" and st[2][1].get("variant") == "StdinError" for bi, si, st in po.stmts()): rep.bad(rule, "primary-order", "validate_primary_order does not reject non-increasing primary components", po.where())
+        else: rep.undecided(rule, "primary-order-shape", "validate_primary_order rejects under a condition this rule does not evaluate", po.where())
         called = any((mir.callee(t) or "") == po.path for g in (F.fn(V + "validate_core"),) if g for bi, t in g.calls())
         if not called: rep.bad(rule, "primary-order-not-called", "validate_core does not call validate_primary_order", po.where())
 
@@ -373,6 +385,7 @@ def validator_vs_resolver(F, rep):
             rt = F.fn("crate::version::zerv::utils::timestamp::resolve_timestamp")
             res_ok = False
             if rt is not None:
+                rt = mir.inlined(F, rt, depth=3, ok=lambda F_, caller, cp, g: g is not None and g.kind != "closure" and cp.startswith("crate::version::zerv::utils::timestamp") and not mir.has_loop(g))
                 for bi, t in rt.calls():
                     if (mir.callee(t) or "").endswith("::format") and "chrono" in (t[1].get("full") or ""):
                         fmt_src = mir.trace_op(rt, t[2][1])
